@@ -253,15 +253,29 @@ func (s *Server) matchEgressRule(addr net.IP, domain string, rule *appctlpb.Egre
 			}
 		}
 	} else if domain != "" {
-		// Domain name based rule.
+		// Domain name based rule. Domain names are case insensitive.
+		domain = asciiLower(domain)
 		for _, d := range rule.GetDomainNames() {
 			if d == "*" {
 				return true
 			}
+			d = asciiLower(d)
 			if domain == d || strings.HasSuffix(domain, "."+d) {
 				return true
 			}
 		}
 	}
 	return false
+}
+
+// asciiLower replaces the ASCII upper case letters of a domain name
+// with lower case letters.
+func asciiLower(s string) string {
+	b := []byte(s)
+	for i, c := range b {
+		if 'A' <= c && c <= 'Z' {
+			b[i] = c + 'a' - 'A'
+		}
+	}
+	return string(b)
 }
